@@ -529,7 +529,7 @@ def run_scenario(sc: dict, drv: common.Driver | None) -> dict:
                     evs = parse_model_events(model.ask(f'reload sendupd {a}'))
                     if model.sessions.get(a):
                         model.sessions[a][-1].extend(evs)
-            if not sc.get('no_sessions'):
+            if not sc.get('no_sessions') and not step.get('immediate'):  # `immediate`: the next reload arrives before any peer has run
                 follow_up(rig, model, stay_down=bool(step.get('stay_down')))
             check(f'after the follow-up of {where}')
             # ---- oracle --------------------------------------------------------------------------
@@ -901,6 +901,21 @@ def down_reload_scenarios(rng: Any, count: int) -> list[dict]:
             steps.append({'flap': [1] if k == 0 and key == 1 else [], 'api': [], 'mode': 'settled', 'new': {'procs': [1], 'nbrs': [dict(nb, key=key, routes=cur)]}, 'stay_down': True})
         steps[-1].pop('stay_down')
         out.append({'old': old, 'up': [1], 'steps': steps})
+    # ... and the neighbor REMOVED while the definition a reload gave it has not been through a session, then
+    # configured again: the new peer starts from an empty table (`reload_readd_starts_empty`), whatever was pending
+    for _ in range(max(2, count // 4)):
+        fams = [1, 2]
+        routes = gen_routes(rng, fams, rng.choice([2, 3]))
+        nb = {'name': 1, 'key': 1, 'fams': fams, 'routes': routes}
+        other = gen_nbr(rng, 2)
+        fresh = gen_routes(rng, fams, rng.choice([1, 2]))
+        steps = [
+            {'flap': [], 'api': [[1, 'announce', rng.choice(sorted(n for n in ribrig.NLRIS if ribrig.NLRI_FAM[n] in fams and n not in (5, 8))), 2, 1]] if rng.random() < 0.6 else [], 'mode': 'settled',
+             'new': {'procs': [1], 'nbrs': [dict(nb, key=2), copy.deepcopy(other)]}, 'stay_down': True, **({'immediate': True} if rng.random() < 0.5 else {})},
+            {'flap': [], 'api': [], 'mode': 'settled', 'new': {'procs': [1], 'nbrs': [copy.deepcopy(other)]}, 'stay_down': True},
+            {'flap': [], 'api': [], 'mode': 'settled', 'new': {'procs': [1], 'nbrs': [dict(nb, key=rng.choice([1, 2]), routes=fresh), copy.deepcopy(other)]}},
+        ]
+        out.append({'old': {'procs': [1], 'nbrs': [nb, copy.deepcopy(other)]}, 'up': [1], 'steps': steps})
     return out
 
 
